@@ -21,7 +21,7 @@ def _mode_switches(ctx, f):
         if blk["cleanup"] or blk["term"]["t"] != "switch":
             continue
         t = blk["term"]
-        cond = pr.operand(t["discr"])
+        cond = pr.term_operand(t["discr"], bb)
         neg = False
         m = cond
         if m.startswith("Not(") and m.endswith(")"):
@@ -591,5 +591,38 @@ def normapplied(pid):
                     else:
                         res.ok({"deviation": row["id"], "variable": var, "object_type": otype, "every_path": "tested canonical or replaced"}, nontrivial=True)
         res.floor("type-dependent normalisations", n, ctx.table("floors").get("normall_sites", 0))
+        return res
+    return run
+
+
+def strictlist(pid):
+    """R-MODE.U: what strict validation refuses beyond permissive validation is the audited list of documented
+    deviations (rules/mode.json, `deviations`) - each of them a condition this library's own writers maintain on
+    every image they produce.  A refusal that is reached only under is_strict() and matches none of the listed
+    deviations is a NEW condition on files: nothing establishes that the library's own images meet it (the mini
+    stream's chain may legitimately be longer than its length needs, say), so `create, modify, reopen strictly`
+    may start to fail."""
+    def run(ctx):
+        res = RuleResult("R-MODE.U(%s)" % pid, "every refusal reached only under is_strict() is one of the documented deviations listed in rules/mode.json")
+        tbl = ctx.table("mode")
+        rows = tbl.get("deviations", [])
+        n = 0
+        for f in ctx.fx.fns.values():
+            rs = refusals(ctx, f)
+            if not rs:
+                continue
+            g = guards(ctx, f)
+            for (c, kind) in rs:
+                atoms = g.atoms_at(("t", c.bb))
+                if not any(re.search(r"^\(Validation::is_strict\(", a) for a in atoms):
+                    continue
+                n += 1
+                hit = [row for row in rows if row["function"] == f.path and all(atoms_match(rx, atoms) for rx in row["test"])]
+                if hit:
+                    res.ok({"function": f.path, "line": c.line, "deviation": hit[0]["id"]})
+                else:
+                    own = [a for a in atoms if not re.search(r"is_strict\(", a)][-3:]
+                    res.fail(Finding(res.rule, "R-MODE.U/%s/unlisted-strict-refusal/%s" % (f.path, "+".join(sorted(set(re.findall(r"\.(\w+)", " ".join(own)))))[:60]), "%s refuses under strict validation only (line %d; conditions: %s) and this is none of the documented deviations: nothing establishes that the images this library writes satisfy the new condition, so a file it created and modified may stop reopening strictly" % (f.path.split("::")[-1], c.line, "; ".join(a[:70] for a in own) or "none"), f, c.term["span"]))
+        res.floor("strict-only refusals", n, ctx.table("floors").get("strict_refusals", 0))
         return res
     return run
